@@ -90,7 +90,9 @@ func (w *Writer) merge(a, b []*nodeInfo) []*nodeInfo {
 			changed = true
 		}
 
-		if depth >= prevDepth && !changed || start == 0 {
+		// Merging nodes of different depths above creates a node of depth
+		// prevDepth+1, so the level above prevDepth must be examined, too.
+		if depth > prevDepth && !changed || start == 0 {
 			break
 		}
 
